@@ -11,10 +11,9 @@ cp -r /repo/include "$SCR/include"
 if ! (cd "$SCR" && patch -p1 -s < "$PATCH"); then echo "MUTANT $(basename $PATCH): patch does not apply"; exit 2; fi
 rc=0
 for P in "$@"; do
-	out=$(cd "$VERIF" && FRIGG_ROOT="$SCR" VERIF_SEED=${VERIF_SEED:-1} ./check "$P" --tier "${TIER:-quick}" 2>&1)
+	out=$(cd "$VERIF" && VERIF_FOUND_DIR="$SCR/found" FRIGG_ROOT="$SCR" VERIF_SEED=${VERIF_SEED:-1} ./check "$P" --tier "${TIER:-quick}" 2>&1)
 	if echo "$out" | grep -q "^VIOLATION property=$P"; then echo "MUTANT $(basename $PATCH) $P: caught  ($(echo "$out" | grep -B1 '^VIOLATION' | head -1 | cut -c1-160))";
 	elif echo "$out" | grep -q "^ERROR"; then echo "MUTANT $(basename $PATCH) $P: ERROR ($(echo "$out" | grep '^ERROR' | head -1 | cut -c1-160))"; rc=1;
 	else echo "MUTANT $(basename $PATCH) $P: MISSED ($(echo "$out" | tail -1))"; rc=1; fi
 done
-rm -rf "$VERIF/replays/found"
 exit $rc
